@@ -637,7 +637,7 @@ pub const FIXED: &[&str] = &[
     "false || (.x = 1)\n.",
     "true || (.x = 1)\n.",
     "(true && (.x = 1))\n.",
-    "(.a | {\"z\": 1}) ?? {}",
+    "x = {\"a\": {\"b\": 1}}\nx | {\"a\": 2, \"c\": null}",
     "{\"a\": 1} | {\"b\": \"s\"}",
     "x = {\"a\": 1}\nx |= {\"z\": \"s\"}\nx",
     "\"a\" + \"b\"",
